@@ -677,6 +677,29 @@ pub fn gen(prop: &str, rng: &mut Rng, quick: bool, st: &mut Stats) -> Option<Vec
                 c.push(format!("chk_sched dir_r {mode} {:x} {} {}", rng.next(), hex_bytes(&enc), comp_tok(comp)));
                 c.push(format!("chk_sched wdirs {mode} {:x} - {} 2 {}", rng.next(), comp_tok(comp), entries_tok(&es)));
             }
+            // directories whose varints have every width up to the widest (10 bytes: values from 2^63 on)
+            {
+                let mut es: Vec<pmtiles2::Entry> = Vec::new();
+                let mut id = 0u64;
+                for w in 1..=9u32 {
+                    id += 1u64 << (7 * w - 1);
+                    es.push(pmtiles2::Entry { tile_id: id, offset: (1u64 << (7 * w - 1)) + 3, length: (1u64 << (7 * w - 1).min(31)) as u32, run_length: 1 + (w % 2) });
+                }
+                es.push(pmtiles2::Entry { tile_id: (1 << 63) + 77, offset: (1 << 63) + 5, length: u32::MAX, run_length: u32::MAX });
+                es.push(pmtiles2::Entry { tile_id: u64::MAX - 9, offset: u64::MAX - 1 - u64::from(u32::MAX), length: u32::MAX, run_length: 3 });
+                let first_wide = vec![pmtiles2::Entry { tile_id: (1 << 63) + 1, offset: u64::MAX - 2, length: 1, run_length: 1 }];
+                for (k, list) in [es, first_wide].iter().enumerate() {
+                    for (j, comp) in ALL_COMP.iter().enumerate() {
+                        let mode = if (k + j) % 2 == 0 { "sync" } else { "async" };
+                        let other = if mode == "sync" { "async" } else { "sync" };
+                        let enc = crate::ops::dir_enc(false, *comp, list).expect("enc");
+                        c.push(format!("chk_sched dir_r {mode} {:x} {} {}", rng.next(), hex_bytes(&enc), comp_tok(*comp)));
+                        c.push(format!("chk_sched dir_r {other} {:x} {} {}", rng.next(), hex_bytes(&enc), comp_tok(*comp)));
+                        c.push(format!("chk_sched dir_w {mode} {:x} - {} {}", rng.next(), comp_tok(*comp), entries_tok(list)));
+                    }
+                }
+                st.bump("directories_with_ten_byte_varints");
+            }
             let big = valid_entries(rng, 9000, false, false, st);
             c.push(format!("chk_sched wdirs sync {:x} - none - {}", rng.next(), entries_tok(&big)));
             c.push(format!("chk_sched wdirs async {:x} - gzip 40 {}", rng.next(), entries_tok(&big)));
@@ -799,6 +822,14 @@ pub fn gen(prop: &str, rng: &mut Rng, quick: bool, st: &mut Stats) -> Option<Vec
                 c.push(format!("chk_sa_hist {}", ops.join(";")));
             }
             c.push(format!("chk_sa_hist {};s:X:Y;l;n", spill_ops(rng, 4300, Compression::None)));
+            // asynchronous lookups that are given up half-way (the synchronous API has no such thing: afterwards the two
+            // families must still agree)
+            for (k, b) in sample_archives(rng, true, st).iter().enumerate().take(6) {
+                let _ = k;
+                c.push(format!("chk_cancel {}", hex_bytes(b)));
+                st.bump("cancelled_async_lookups");
+            }
+            c.push(format!("chk_cancel {}", hex_bytes(&write_plain("async", &format!("c:none;a:3:{};a:4:0102;a:9:{}", hex_bytes(&rng.bytes(70_000)), hex_bytes(&rng.bytes(300)))).expect("write"))));
             // unusual directory structures (overlapping runs, mixed directories): whatever one family makes of them, the
             // other must make the same
             for (name, bytes, pts, _valid) in odd_archives(rng) {
@@ -927,6 +958,13 @@ pub fn gen(prop: &str, rng: &mut Rng, quick: bool, st: &mut Stats) -> Option<Vec
                 c.push(format!("chk_codec_big {} {:x}", comp_tok(comp), (1usize << 27) + 1));
                 st.bump("codec_inputs_over_128MiB");
             }
+            // an input just beyond 2^32 bytes (gzip records its length modulo 2^32; about 13 GiB of memory while it runs)
+            if mem_available_gib() >= 24 {
+                c.insert(0, format!("chk_codec_big gzip {:x}", (1u64 << 32) + 5));
+                st.bump("codec_input_over_4GiB");
+            } else {
+                st.bump("codec_input_over_4GiB_skipped_for_lack_of_memory");
+            }
             for k in 0..8u64 {
                 c.push(format!("chk_gzip_export {k:x} {:x} {:x} {:x}", k % 5, [0usize, 1, 300, 70_000][k as usize % 4], rng.next()));
             }
@@ -1017,6 +1055,10 @@ pub fn run_chk(toks: &[&str]) -> Option<String> {
         }
         ["chk_torn", mode, ops] => guard_chk(|| chk_torn(mode, ops)),
         ["chk_torn_giant", mode] => guard_chk(|| chk_torn_giant(mode)),
+        ["chk_cancel", b] => {
+            let b = unhex_bytes(b);
+            guard_chk(|| chk_cancel(&b))
+        }
         ["chk_windows_told", mode, b] => {
             let b = unhex_bytes(b);
             guard_chk(|| chk_windows_told(mode, &b))
